@@ -43,11 +43,13 @@ def run(ctx):
     ctx.check(ok, f"{P}.LEVEL-COH", mp.site, "indexes, file, offset and bounds of the same box of the same level are zipped",
               f"task loop is {[norm(l.iter) for l in lp]}")
     dct = [n for n in ast.walk(mp.node) if isinstance(n, ast.Dict)]
-    d = {k.value: norm(v) for k, v in zip(dct[0].keys, dct[0].values)} if dct else {}
+    denv = rules.local_env(mp.node)
+    d = {k.value: rules.deep(v, denv, mp.params) for k, v in zip(dct[0].keys, dct[0].values)} if dct else {}
     want = {"cx": "0", "cy": "1", "dx": "self.dx", "limit_level": "self.limit_level", "fidxs": "self.fidxs", "Lv": "lv",
             "indexes": "indexes", "cfile": "cfile", "offset": "offset", "box": "box"}
     ctx.check(d == want, f"{P}.LEVEL-COH", mp.site, "every box of the level becomes one task with cx=0, cy=1",
-              f"task is {d}", key="task")
+              f"task is {d} (locals substituted); expected {want}: the worker's results are paired with the requested "
+              f"field order, so the field indices must be passed as requested", key="task", semantic=bool(dct))
     # plate()
     pl = prog.func(MA, "Mandoline.plate", P)
     sites = pools.find_sites(prog, pl)
